@@ -252,6 +252,15 @@ def _vec_kernel(dim, nc):
         loops[k - 1] = LoopSpec(r'for mu%d in range\(MU%d\)' % (k, k), inv=inv_level(k))
     loops[dim - 1] = LoopSpec(r'for row in range\(numcomp\[1\]\)', inv=lambda s: inv_inner(s) + [('row', s.row >= 0)])
     loops[dim] = LoopSpec(r'for col in range\(numcomp\[0\]\)', inv=lambda s: inv_inner(s) + [('rowcol', And(0 <= s.row, s.row < nc1, s.col >= 0))])
+    # completeness of the lower triangle: a block is skipped (return / continue) only if it lies STRICTLY ABOVE the diagonal, i.e. the tuple
+    # (j_0 - i_0, ..., j_k - i_k) of the levels fixed so far is lexicographically positive (then every completion of it is).  The skipping
+    # statements are addressed by their nesting depth (4 spaces per level, as the generator template emits them).
+    def lexpos(s, k):
+        d = [getattr(s, 'diag%d' % q) for q in range(k + 1)]
+        return Or(*[And(*([d[q] == 0 for q in range(p_)] + [d[p_] > 0])) for p_ in range(k + 1)])
+    checks = [(r'^ {12}return\s*(#.*)?$', lambda s: [('skipped-only-if-strictly-above-the-diagonal', And(s.symmetric, lexpos(s, 0)))])]
+    for k in range(1, dim):
+        checks.append((r'^ {%d}continue\s*(#.*)?$' % (12 + 4 * k), lambda s, k=k: [('skipped-only-if-strictly-above-the-diagonal', And(s.symmetric, lexpos(s, k)))]))
     params = {'asm': Opaque(), 'symmetric': Bool(), 'numcomp': Arr('int', 1, shape=(2,)),
               'entries': Arr('real', dim + 1), '_mu0': Int(0)}
     for k in range(dim):
@@ -261,7 +270,7 @@ def _vec_kernel(dim, nc):
         F, '_asm_core_vec_%dd_kernel' % dim, name='assemble_tools_cy:_asm_core_vec_%dd_kernel[%dx%d]' % (dim, nc0, nc1),
         params=params, requires=req, modifies=('entries',),
         callees={'entry_impl': _entry_impl_spec(NC)},
-        loops=loops, ensures=post,
+        loops=loops, ensures=post, checks=checks,
         options={'no_return_ok': True, 'timeout_ms': 60000},
         notes=['transp_k is the contract of get_transpose_idx_for_bidx: bidx_k[transp_k[m]] is the reversed pair of bidx_k[m] (precondition here; checked '
                'on the real function in the bounded tier)',
